@@ -5,7 +5,6 @@ package main
 // control-flow graph, loops cut at their headers).
 
 import (
-	"regexp"
 	"bytes"
 	"fmt"
 	"go/ast"
@@ -13,6 +12,7 @@ import (
 	"go/printer"
 	"go/token"
 	"go/types"
+	"regexp"
 	"sort"
 	"strings"
 
@@ -37,31 +37,31 @@ type Assump struct {
 }
 
 type Obl struct {
-	Name    string
-	Kind    string
-	Guard   string
-	F       Formula
-	NAssume int // assumptions [0,NAssume) are visible
-	Pos     token.Pos
-	Text    string // clause / source text
-	Fn      *ssa.Function
-	Canary  bool // must be refuted (vacuity probe)
-	Broken  bool
+	Name        string
+	Kind        string
+	Guard       string
+	F           Formula
+	NAssume     int // assumptions [0,NAssume) are visible
+	Pos         token.Pos
+	Text        string // clause / source text
+	Fn          *ssa.Function
+	Canary      bool // must be refuted (vacuity probe)
+	Broken      bool
 	ExtraAssume string
 	// filled in phase 2
 	Goal string
 }
 
 type loopInfo struct {
-	header  *ssa.BasicBlock
-	blocks  map[*ssa.BasicBlock]bool
-	latches []*ssa.BasicBlock
-	ordinal int
-	spec    *LoopSpec
-	stmt    ast.Node
-	modAll  bool
+	header   *ssa.BasicBlock
+	blocks   map[*ssa.BasicBlock]bool
+	latches  []*ssa.BasicBlock
+	ordinal  int
+	spec     *LoopSpec
+	stmt     ast.Node
+	modAll   bool
 	ghostAll bool // a call in the loop has a contract without a frame: ghost state may change too
-	mods    map[string]bool
+	mods     map[string]bool
 }
 
 type FnTrans struct {
@@ -71,68 +71,68 @@ type FnTrans struct {
 	mode Mode
 	pkg  *types.Package
 
-	decls    []string
-	declSet  map[string]bool
-	defs     []string
-	assumps  []Assump
-	obls     []*Obl
-	vals     map[ssa.Value]Val
-	reach    map[*ssa.BasicBlock]string
-	exitSt   map[*ssa.BasicBlock]*HeapState
-	entrySt  map[*ssa.BasicBlock]*HeapState
-	edgeCond map[[2]int]string
-	entry0   *HeapState // heap at function entry (for old())
-	loops    map[*ssa.BasicBlock]*loopInfo
-	backEdge map[[2]int]bool
-	counter  int
-	epochs   int
-	idxTerms map[string]bool
-	nameCnt  map[string]int
-	abstractions []string
-	unknownCalls map[string]int
-	dynSplits    int // dynamic calls resolved by a case split over function constants
-	assumedUsed  map[string]bool
-	contractsUsed map[string]bool
-	localRefs []string // refs of allocations made by this function
-	params   map[string]Val
-	results  []Val // per return site handled separately
-	unsupported string
-	siteCount map[string]int
-	strLits  map[string]string
-	typeTags map[string]int
-	compSorts map[string]string
-	elemIdx  map[string]bool
-	deferred []*ssa.Defer
-	retCount int
+	decls          []string
+	declSet        map[string]bool
+	defs           []string
+	assumps        []Assump
+	obls           []*Obl
+	vals           map[ssa.Value]Val
+	reach          map[*ssa.BasicBlock]string
+	exitSt         map[*ssa.BasicBlock]*HeapState
+	entrySt        map[*ssa.BasicBlock]*HeapState
+	edgeCond       map[[2]int]string
+	entry0         *HeapState // heap at function entry (for old())
+	loops          map[*ssa.BasicBlock]*loopInfo
+	backEdge       map[[2]int]bool
+	counter        int
+	epochs         int
+	idxTerms       map[string]bool
+	nameCnt        map[string]int
+	abstractions   []string
+	unknownCalls   map[string]int
+	dynSplits      int // dynamic calls resolved by a case split over function constants
+	assumedUsed    map[string]bool
+	contractsUsed  map[string]bool
+	localRefs      []string // refs of allocations made by this function
+	params         map[string]Val
+	results        []Val // per return site handled separately
+	unsupported    string
+	siteCount      map[string]int
+	strLits        map[string]string
+	typeTags       map[string]int
+	compSorts      map[string]string
+	elemIdx        map[string]bool
+	deferred       []*ssa.Defer
+	retCount       int
 	intrinsicsUsed map[string]bool
-	pureCalls map[string]int
-	sitesMatched map[*SiteSpec]bool
+	pureCalls      map[string]int
+	sitesMatched   map[*SiteSpec]bool
 	contractErrors []string
-	assumpTerms []string
-	knownRefs map[string]bool
-	strPairs map[string]bool
-	strTerms map[string]bool
-	allowedMods map[string]bool // nil: no component-level frame check
-	skCache map[string]string
-	f64bitsCache map[string]string
-	subRefSeen map[string]bool
-	subRefTerms []string
-	privateAlloc map[ssa.Value]bool
-	privateRefs map[string]bool
-	varAddr     map[types.Object]ssa.Value // local variables that live in memory -> their allocation
-	phase2 bool
-	siteRanks map[*SiteSpec]map[ssa.Instruction]int
-	constArrs map[string]string
-	constElemSort map[string]string // const global name -> element sort
-	constDefs     map[string]bool   // defined names whose term is built from const-slice names
-	fnNames       map[string]bool   // names of the function's variables (stale-contract detection)
-	idxNeighbours map[string]bool   // second-rank instantiation candidates (skolem index + 1)
-	keyTerms      map[string]map[string]bool // key sort -> terms of that sort used as map keys / key skolems (instantiation candidates)
-	rangeIds      map[*ssa.Range]int         // map ranges -> id of their visited-set component V.r<id>
-	rangeMapRef   map[*ssa.Range]string      // map ranges -> reference term of the ranged map
-	curSt         *HeapState                 // state of the instruction being translated (moving allocation frontier)
-	staleClauses  []string          // clauses that mention a name the function no longer has
-	globalsUsed map[string]bool
+	assumpTerms    []string
+	knownRefs      map[string]bool
+	strPairs       map[string]bool
+	strTerms       map[string]bool
+	allowedMods    map[string]bool // nil: no component-level frame check
+	skCache        map[string]string
+	f64bitsCache   map[string]string
+	subRefSeen     map[string]bool
+	subRefTerms    []string
+	privateAlloc   map[ssa.Value]bool
+	privateRefs    map[string]bool
+	varAddr        map[types.Object]ssa.Value // local variables that live in memory -> their allocation
+	phase2         bool
+	siteRanks      map[*SiteSpec]map[ssa.Instruction]int
+	constArrs      map[string]string
+	constElemSort  map[string]string          // const global name -> element sort
+	constDefs      map[string]bool            // defined names whose term is built from const-slice names
+	fnNames        map[string]bool            // names of the function's variables (stale-contract detection)
+	idxNeighbours  map[string]bool            // second-rank instantiation candidates (skolem index + 1)
+	keyTerms       map[string]map[string]bool // key sort -> terms of that sort used as map keys / key skolems (instantiation candidates)
+	rangeIds       map[*ssa.Range]int         // map ranges -> id of their visited-set component V.r<id>
+	rangeMapRef    map[*ssa.Range]string      // map ranges -> reference term of the ranged map
+	curSt          *HeapState                 // state of the instruction being translated (moving allocation frontier)
+	staleClauses   []string                   // clauses that mention a name the function no longer has
+	globalsUsed    map[string]bool
 }
 
 func (t *FnTrans) fresh(prefix string) string {
